@@ -6,7 +6,6 @@ use crate::debugger::debugee::dwarf::{EndianArcSlice, FatDieRef, NamespaceHierar
 use crate::debugger::error::Error;
 use crate::debugger::variable::ObjectBinaryRepr;
 use crate::weak_error;
-use bytes::Bytes;
 use gimli::{AttributeValue, DwAte, Expression};
 use indexmap::IndexMap;
 use log::warn;
@@ -171,7 +170,13 @@ impl StructureMember {
             .address
             .map(|addr| (addr as isize + offset) as usize);
 
-        let raw_data = Bytes::from(unsafe { std::slice::from_raw_parts(addr, type_size) });
+        // a member must lie inside the fetched bytes of the parent structure
+        let member_start = usize::try_from(offset).ok()?;
+        let member_end = member_start.checked_add(type_size)?;
+        if member_end > base_data.raw_data.len() {
+            return None;
+        }
+        let raw_data = base_data.raw_data.slice(member_start..member_end);
 
         Some(ObjectBinaryRepr {
             raw_data,
